@@ -16,7 +16,7 @@ def plan(tier):
         Q(P, 1, ['--', 'a', 'b', '***'], wit=(W_ERR,)),                                   # the third positional exceeds the limit 2
         Q(P, 1, ['a', 'b', '***'], extra=pos, wit=wp),                                    # limit boundary without --
         Q(P, 1, ['--o', '***'], extra=pos, wit=(W_OK, W_ERR)),                            # -- right after an option awaiting a value
-        Q(P, 4, ['a', '***'], extra=pos, wit=wp),                                         # limit 1, greedy: second token is positional whatever it spells
+        Q(P, 4, ['a', '***'], wit=(W_ERR,)),                                         # limit 1, greedy: second token is positional whatever it spells
         Q(P, 4, ['***'], extra=pos, wit=wp),
         Q(P, 3, ['-o=1', '--m=2', 'a', '***'], extra=pos, wit=(W_OK, 'a positional is reported')),   # unlimited + greedy: even a declared option after the first positional
         Q(P, 9, ['a', '***'], extra=pos, wit=wp),                                         # unlimited, not greedy: options still parsed
@@ -27,7 +27,7 @@ def plan(tier):
         qs += [Q(P, 1, ['***', '***'], extra=pos, wit=wp, **H), Q(P, 1, ['**', '--', '**'], extra=pos, wit=wp, **H), Q(P, 4, ['***', '***'], extra=pos, wit=wp, **H),
                Q(P, 9, ['***', '***'], extra=pos, wit=wp, **H), Q(P, 3, ['**', '--', '***'], extra=pos, wit=wp, **H), Q(P, 12, ['a', 'b', '***'], extra=pos, wit=wp)]
     # arguments::get(int) / operator[]: all indices in [-n-1, n] for n = 0..3
-    for toks in ([], ['?'], ['??', '?'], ['?', '??', '?']):
+    for toks in ([], ['?'], ['ab', '?'], ['a', 'bc', '?']):
         qs.append(Q('C12_INDEX', 9, toks, wit=('out-of-range index raised',) + (('negative index answered', 'non-negative index answered') if toks else ()),
                     name='index_n%d' % len(toks)))
     corpus = base_corpus(P, envdecls=[]) + [rt_entry(9, t, 'C12_INDEX', vin=v) for t, v in ((['a', 'bc', 'd'], [3, 0]), (['a', 'bc', 'd'], [6, 1]), (['a', 'bc', 'd'], [0, 0]), (['a'], [5, 0]), ([], [4, 1]))]
